@@ -4847,6 +4847,14 @@ int64_t ExpressionEvaluator::evaluate_function_call_impl(const ASTNode *node) {
                             arg->name);
                     }
 
+                    // a const object is not bound to a T& that permits writes
+                    if (source_var->is_const && !param->is_const) {
+                        throw std::runtime_error(
+                            "Cannot bind const variable '" + arg->name +
+                            "' to non-const reference parameter '" +
+                            param->name + "'");
+                    }
+
                     // 参照変数を作成（参照先のポインタを保存）
                     Variable ref_var;
                     ref_var.is_reference = true;
